@@ -10,7 +10,7 @@ from __future__ import annotations
 import ast
 
 from ..flow import FlowAnalysis, fact_exprs, has_event
-from ..model import AnalysisError, call_name, last_attr, names_in, unparse, walk_no_nested
+from ..model import AnalysisError, call_name, dotted_name, last_attr, names_in, unparse, walk_no_nested
 
 CTX = "codemodder.context.CodemodExecutionContext"
 WRITER = "codemodder.dependency_management.base_dependency_writer.DependencyWriter"
@@ -296,6 +296,56 @@ def rule_manifest_no_overwrite(ctx, rep):
                      detail="no computed-key store into a parsed manifest (entries are appended)")
 
 
+DECODE_CATCHERS = {"Exception", "BaseException", "ValueError", "UnicodeError", "UnicodeDecodeError"}
+
+
+def rule_decode_handled(ctx, rep):
+    rep.rule(
+        "R-DECODE-HANDLED",
+        "contradiction rule over the manifest code (dependency writers and file parsers): where a `try` encloses a *text-mode read* of a "
+        "manifest and has handlers at all -- the author holds that reading it can fail, and answers by giving the manifest up -- one of the "
+        "handlers also catches a decoding error (Exception / ValueError / UnicodeError / UnicodeDecodeError).  UnicodeDecodeError is not an "
+        "OSError: a handler list narrowed to OSError lets a UTF-16 requirements.txt end the whole run with a traceback (status 1, no report) "
+        "where `no manifest can be updated` must leave the run successful",
+        min_instances=1,
+    )
+
+    def text_read(call: ast.Call) -> bool:
+        la = last_attr(call.func) or ""
+        if la == "read_text":
+            return True
+        if (call_name(call) or "") in ("open", "io.open", "codecs.open") or la == "open":
+            mode = next((k.value for k in call.keywords if k.arg == "mode"), call.args[1] if len(call.args) > 1 and (call_name(call) or "").endswith("open") and not isinstance(call.func, ast.Attribute) else (call.args[0] if isinstance(call.func, ast.Attribute) and la == "open" and call.args else None))
+            m = mode.value if isinstance(mode, ast.Constant) and isinstance(mode.value, str) else "r"
+            return "b" not in m and not any(ch in m for ch in "wax")
+        return False
+
+    n = 0
+    for fn in ctx.prog.live_functions():
+        if not fn.module.name.startswith(("codemodder.dependency_management.", "codemodder.project_analysis.")):
+            continue
+        for t in walk_no_nested(fn.node):
+            if not isinstance(t, ast.Try) or not t.handlers:
+                continue
+            reads = [c for st in t.body for c in ast.walk(st) if isinstance(c, ast.Call) and text_read(c)]
+            if not reads:
+                continue
+            n += 1
+            caught = set()
+            broad = False
+            for h in t.handlers:
+                if h.type is None:
+                    broad = True
+                for x in ([h.type] if h.type is not None and not isinstance(h.type, ast.Tuple) else (h.type.elts if h.type is not None else [])):
+                    caught.add((dotted_name(x) or "").split(".")[-1])
+            ok = broad or bool(caught & DECODE_CATCHERS)
+            rep.check("R-DECODE-HANDLED", fn.qname, fn.loc(t), ok, "read-under-try",
+                      f"`{unparse(reads[0])[:50]}` decodes the manifest inside a try that only catches {sorted(caught)}: a file in another encoding raises "
+                      "UnicodeDecodeError (a ValueError, not an OSError) straight through the run")
+    if n == 0:
+        raise AnalysisError("no guarded text-mode manifest read found in the dependency writers / file parsers")
+
+
 def rule_requirement_constants(ctx, rep):
     from .c01 import QUOTES
 
@@ -350,6 +400,7 @@ def check(ctx, rep):
     rule_requirement_constants(ctx, rep)
     rule_manifest_siblings(ctx, rep)
     rule_manifest_no_overwrite(ctx, rep)
+    rule_decode_handled(ctx, rep)
     rule_shared(ctx, rep)
     from .c12 import MANIFEST_MODULES, rule_every_input_read
 
